@@ -288,6 +288,10 @@ def check(ctx, rep):
                 prob_order.add("the listening socket is bound after privileges were given up")
             if any(k == "TLSKEYS" for k in kinds[first:]):
                 prob_order.add("TLS keys are loaded after privileges were given up")
+            tls_on = any(e.kind == "test" and e.extra is True and "enable_tls" in norm(e.node) and "getboolean" in norm(e.node) for e in p.events)
+            if tls_on and "TLSKEYS" not in kinds[:first]:
+                prob_order.add("with enable_tls set, privileges are given up without the TLS certificate and key having been loaded "
+                               "(the load is left for later, when the process can no longer read a root-only key)")
         if p.kind != "raise":
             n_normal += 1
             if not called_dropper:
